@@ -198,6 +198,7 @@ func runC17(c *Ctx) {
 	c.R.Count("message pairs", len(pairs))
 	c.R.Floor(rule, cfg, len(pairs), 9)
 	ruleEncodersPure(c, p, "C17.encode-pure")
+	ruleTraceStateInverse(c, p, "C17.tracestate")
 	ruleShapePairs(c, p, rule, pairs, false)
 
 	ruleGates(c, p, pairs, "C17.gates")
